@@ -35,7 +35,7 @@ class World(fakenet.Endpoint):
         self.violations: list = []  # protocol-level oddities seen by the servers (plaintext to a TLS port, ...)
         self.serial = 0
         self.origin_requests = 0
-        self.fault_plan: dict = {}  # index of the origin request (0-based, CONNECTs not counted) -> "reset" | "eof"
+        self.fault_plan: dict = {}  # index of the origin request (0-based, CONNECTs not counted) -> "reset" | "eof" | "busy" (503 + Retry-After: 0)
         self.unknown_identity = nulltls.Identity([("DNS", "unknown.invalid")], trusted=False, label="unknown")
 
     # ---- topology
@@ -139,6 +139,9 @@ class World(fakenet.Endpoint):
             self.log.append(entry)
             if fault == "reset":
                 sock.rx.append(("exc", ConnectionResetError(errno.ECONNRESET, "Connection reset by peer")))
+            elif fault == "busy":
+                # a retryable status: the client is asked to come back at once
+                self._respond(sock, entry, {"status": 503, "headers": [("Retry-After", "0")], "body_len": 8})
             else:
                 sock.rx.append(fakenet.EOF)
             return
